@@ -7,6 +7,43 @@ namespace MF.Utf8
 
 def runeError : Nat := 0xFFFD
 
+/-- two-byte form, continuation accepted in 80..BF -/
+def dec2 (b0 : Nat) (t : Bytes) : Nat × Nat :=
+  match t with
+  | s1 :: _ =>
+    let b1 := s1.toNat
+    if b1 < 0x80 || 0xBF < b1 then (runeError, 1)
+    else ((b0 % 32) * 64 + (b1 % 64), 2)
+  | _ => (runeError, 1)
+
+/-- three-byte form; `E0` needs A0..BF, `ED` needs 80..9F (no surrogates) -/
+def dec3 (b0 : Nat) (t : Bytes) : Nat × Nat :=
+  let lo := if b0 == 0xE0 then 0xA0 else 0x80
+  let hi := if b0 == 0xED then 0x9F else 0xBF
+  match t with
+  | s1 :: s2 :: _ =>
+    let b1 := s1.toNat
+    let b2 := s2.toNat
+    if b1 < lo || hi < b1 then (runeError, 1)
+    else if b2 < 0x80 || 0xBF < b2 then (runeError, 1)
+    else ((b0 % 16) * 4096 + (b1 % 64) * 64 + (b2 % 64), 3)
+  | _ => (runeError, 1)
+
+/-- four-byte form; `F0` needs 90..BF, `F4` needs 80..8F -/
+def dec4 (b0 : Nat) (t : Bytes) : Nat × Nat :=
+  let lo := if b0 == 0xF0 then 0x90 else 0x80
+  let hi := if b0 == 0xF4 then 0x8F else 0xBF
+  match t with
+  | s1 :: s2 :: s3 :: _ =>
+    let b1 := s1.toNat
+    let b2 := s2.toNat
+    let b3 := s3.toNat
+    if b1 < lo || hi < b1 then (runeError, 1)
+    else if b2 < 0x80 || 0xBF < b2 then (runeError, 1)
+    else if b3 < 0x80 || 0xBF < b3 then (runeError, 1)
+    else ((b0 % 8) * 262144 + (b1 % 64) * 4096 + (b2 % 64) * 64 + (b3 % 64), 4)
+  | _ => (runeError, 1)
+
 /-- (rune, width).  Empty input: `(RuneError, 0)`; invalid: `(RuneError, 1)`. -/
 def decodeRune (s : Bytes) : Nat × Nat :=
   match s with
@@ -15,38 +52,9 @@ def decodeRune (s : Bytes) : Nat × Nat :=
     let b0 := s0.toNat
     if b0 < 0x80 then (b0, 1)
     else if b0 < 0xC2 then (runeError, 1)
-    else if b0 < 0xE0 then
-      -- two bytes, accept 80..BF
-      match t with
-      | s1 :: _ =>
-        let b1 := s1.toNat
-        if b1 < 0x80 || 0xBF < b1 then (runeError, 1)
-        else ((b0 % 32) * 64 + (b1 % 64), 2)
-      | _ => (runeError, 1)
-    else if b0 < 0xF0 then
-      let lo := if b0 == 0xE0 then 0xA0 else 0x80
-      let hi := if b0 == 0xED then 0x9F else 0xBF
-      match t with
-      | s1 :: s2 :: _ =>
-        let b1 := s1.toNat
-        let b2 := s2.toNat
-        if b1 < lo || hi < b1 then (runeError, 1)
-        else if b2 < 0x80 || 0xBF < b2 then (runeError, 1)
-        else ((b0 % 16) * 4096 + (b1 % 64) * 64 + (b2 % 64), 3)
-      | _ => (runeError, 1)
-    else if b0 < 0xF5 then
-      let lo := if b0 == 0xF0 then 0x90 else 0x80
-      let hi := if b0 == 0xF4 then 0x8F else 0xBF
-      match t with
-      | s1 :: s2 :: s3 :: _ =>
-        let b1 := s1.toNat
-        let b2 := s2.toNat
-        let b3 := s3.toNat
-        if b1 < lo || hi < b1 then (runeError, 1)
-        else if b2 < 0x80 || 0xBF < b2 then (runeError, 1)
-        else if b3 < 0x80 || 0xBF < b3 then (runeError, 1)
-        else ((b0 % 8) * 262144 + (b1 % 64) * 4096 + (b2 % 64) * 64 + (b3 % 64), 4)
-      | _ => (runeError, 1)
+    else if b0 < 0xE0 then dec2 b0 t
+    else if b0 < 0xF0 then dec3 b0 t
+    else if b0 < 0xF5 then dec4 b0 t
     else (runeError, 1)
 
 /-- `utf8.EncodeRune` / `bytes.Buffer.WriteRune` (surrogates and out-of-range become U+FFFD). -/
